@@ -27,8 +27,9 @@ CHECKS["C01"] = ("model_checking",
     "Trusted: TLC, F64.java, harness recording, the cfg(bacon_verif) hooks; integer-tick abstraction valid while steps >= 1 tick.",
     "DESIGN.md §4 C01, App. B")
 CHECKS["C03"] = ("model_checking",
-    "trace validation with action disambiguation: TLC (Val_IvpMethods) explains every yielded point by RK4-start or the advertised "
-    "multistep/RK formula from IvpMethods.tla (literature constants, self-checked by TLC)",
+    "trace validation with inferred unlogged state: TLC (Val_IvpMethods) explains every yielded point by RK4-start or the advertised "
+    "multistep/RK formula from IvpMethods.tla (literature constants, self-checked by TLC), carrying the set of candidate Adams "
+    "derivative histories",
     "Every point of every recorded path (7 solvers, generic non-linear non-autonomous systems) must be reproduced to 1e-10 by the "
     "published formula written in TLA+, with the embedded / predictor-corrector estimate within tolerance and the first-trial "
     "accept/reject decision matching the reference estimate. Per observed execution, not a proof over all inputs.",
@@ -60,12 +61,15 @@ CHECKS["C06"] = ("model_checking",
     "carrying that error, then None, also through collect_vec.",
     TRUST + " Hooks: verif_params() accessor (drift reporting only).", "DESIGN.md §4 C06")
 CHECKS["C07"] = ("model_checking",
-    "TLC model-checks a lattice design of bisection (MC_Bisection) against the contract; lattice and seeded runs of bisection/Brent/ITP with a "
-    "recording function are judged by TLC against the contract module Bracket",
-    "E1: every bracket/root position/sign/tolerance on a 64-unit lattice for the bisection design (abscissae inside, sign change kept, halving "
-    "bound, result near a root). E2/E3: every recorded run of the three real solvers (abscissae seen, evaluation count, result) checked "
-    "against the contract with root sets written in TLA+.",
-    TRUST, "DESIGN.md §4 C07")
+    "TLC model-checks lattice designs of bisection, ITP and Brent (MC_Bisection, MC_Itp, MC_Brent - Brent also with ANY interpolated "
+    "point) against the contract; lattice and seeded runs of the three real solvers with a recording function are judged by TLC against "
+    "the contract module Bracket; every abscissa of every real brent() run is validated bit for bit against the same Brent module "
+    "over doubles (Trace_Brent)",
+    "E1: every bracket/root position/sign/tolerance on the lattices (abscissae inside, sign change kept, iteration/evaluation bounds, "
+    "result near a root or sign change). E2/E3: every recorded run of the three real solvers (abscissae seen, evaluation count, result) "
+    "checked against the contract with root sets written in TLA+. Design-level trace validation reports drift, never a violation. "
+    "BrentLemmas.tla (dead inverse-quadratic branch, points inside the bracket) is proved by TLAPS in the self-test.",
+    TRUST, "DESIGN.md §4 C07, §11")
 CHECKS["C08"] = ("exploration",
     "TLC-generated exhaustive affine systems + seeded systems/polynomials/contractions run on the real routines; TLC (Val_C08) judges each "
     "run against the contract Iterative (cap, finite, distance to root / residual, Err for singular)",
@@ -99,12 +103,14 @@ CHECKS["C19"] = ("exploration",
     "smooth functions against the classical remainder bound.",
     TRUST, "DESIGN.md §4 C19")
 CHECKS["C09"] = ("exploration",
-    "TLC model-checks the explicit-stack Simpson design (SimpsonStack); recorded runs of the eight routines are judged by TLC (Val_C09) "
-    "against closed-form integrals written in Quad.tla and against the textbook Simpson recursion run by TLC",
+    "TLC model-checks the explicit-stack Simpson design (SimpsonStack), the Gaussian stopping rule (GaussStop) and the Romberg tableau; "
+    "recorded runs of the eight routines are judged by TLC (Val_C09) against closed-form integrals written in Quad.tla and against the "
+    "textbook Simpson recursion run by TLC; every abscissa, verdict and the returned area of real-valued integrate_simpson runs are "
+    "validated bit for bit through SimpsonStack's own stack actions (Trace_Simpson)",
     "E1: every accept/split verdict tree to depth 3 (thorough 4): pending + accepted panels tile the interval, each frame carries its own "
     "panel's estimate. E3: seeded integrands with closed forms; result within KQ*tol, Err for bad intervals/tolerances, abscissae inside, "
-    "Romberg exact on degree <= 2n-1, Simpson evaluations <= 2x textbook + 8.",
-    TRUST, "DESIGN.md §4 C09")
+    "Romberg exact on degree <= 2n-1, Simpson evaluations <= 2x textbook + 8. Design-level trace validation reports drift, never a violation.",
+    TRUST, "DESIGN.md §4 C09, §11")
 CHECKS["C10"] = ("exploration",
     "the shipped tables are compiled from the working tree and every row is checked by TLC (QuadTables): expansion count, domain, "
     "positivity, all moments 0..2n-1 against closed forms, tanh-sinh pairs against the double-exponential formula",
@@ -126,7 +132,10 @@ CHECKS["C17"] = ("exploration",
     "linear_fit on all permutations of small integer data sets + seeded data (normal equations checked by TLC); Levenberg-Marquardt runs with "
     "a counting model closure judged by TLC (Val_C17, Fit) against the normal-equation solution / the generating parameters",
     "Exhaustive small scope for linear_fit, exploration for LM. curve_fit (finite-difference variant) has a known, unfixable-under-the-rules "
-    "defect listed in known-findings.txt; curve_fit_jac and linear_fit are checked with full force.",
+    "defect listed in known-findings.txt by call site: a failure is attributed to it only when the same case passes the whole contract "
+    "through a counterfactual twin of optimize/mod.rs (that one statement corrected, built from the tree under test); any other failure "
+    "is a violation. curve_fit_jac and linear_fit are checked with full force. Accuracy is judged on well-conditioned designs "
+    "(lower bound of lambda_min(J^T J) computed in TLA+).",
     TRUST, "DESIGN.md §4 C17")
 
 NOT_YET = {}
